@@ -143,11 +143,11 @@ func (m *expirationMap[V]) cleanup(store store[V], policy *defaultPolicy[V], onE
 	for _, keys := range buckets {
 		for key, conflict := range keys {
 			verifPoint(vpSweepKey, key, conflict)
-			expr := store.Expiration(key)
-			// Sanity check. Verify that the store agrees that this key is expired.
-			// A zero expiration means the key was deleted or rewritten without a TTL
-			// after this bucket was taken: it must not be expired.
-			if expr.IsZero() || expr.After(now) {
+			// Sanity check. Verify that the store agrees that this key is expired,
+			// and delete it under the same lock: a key that is rewritten with a
+			// later or no TTL while this bucket is processed must not be removed.
+			_, value, expr, ok := store.DelExpired(key, conflict, now)
+			if !ok {
 				verifPoint(vpSweepSkip, key, conflict)
 				continue
 			}
@@ -156,7 +156,6 @@ func (m *expirationMap[V]) cleanup(store store[V], policy *defaultPolicy[V], onE
 			cost := policy.Cost(key)
 			policy.Del(key)
 			verifPoint(vpSweepPolDel, key, conflict)
-			_, value := store.Del(key, conflict)
 
 			if onEvict != nil {
 				onEvict(&Item[V]{Key: key,
